@@ -65,6 +65,40 @@ def check_bosonic_state(ctx, sf, st, rp):
         if np.max(np.abs(c - c.T)) > 1e-9 * max(1, np.max(np.abs(c))):
             ctx.fail("bosonic:cov-not-symmetric", "a bosonic component covariance is not symmetric", rp)
             break
+    # the operator must be Hermitian with non-negative quadrature densities: the Wigner function sum_k w_k N(xi; mu_k, S_k)
+    # of every single mode is real, and its x- and p-marginals are real and non-negative (evaluated here from the components)
+    mus = np.asarray(st.means())
+    if len(w) <= 64:
+        nm = covs.shape[1] // 2
+        scale = math.sqrt(sf.hbar / 2)
+        for m in range(min(nm, 3)):
+            ix = [2 * m, 2 * m + 1]
+            mu_m, c_m = mus[:, ix], covs[:, ix][:, :, ix]
+            ci = np.linalg.inv(c_m)
+            dt = np.linalg.det(c_m)
+            worst_im, worst_neg, ref = 0.0, 0.0, 0.0
+            for (x, p_) in ((0.0, 0.0), (0.7, -0.4), (-1.3, 0.9), (2.1, 1.6), (0.2, -2.2)):
+                xi = np.array([x, p_]) * scale
+                dlt = xi[None, :] - mu_m
+                terms = w * np.exp(-0.5 * np.einsum("ki,kij,kj->k", dlt, ci, dlt)) / (2 * np.pi * np.sqrt(dt))
+                ref = max(ref, float(np.sum(np.abs(terms))))
+                worst_im = max(worst_im, abs(float(np.imag(np.sum(terms)))))
+                for q_ in (0, 1):
+                    d1 = xi[q_] - mu_m[:, q_]
+                    v1 = c_m[:, q_, q_]
+                    t1 = w * np.exp(-0.5 * d1 * d1 / v1) / np.sqrt(2 * np.pi * v1)
+                    tot = np.sum(t1)
+                    worst_im = max(worst_im, abs(float(np.imag(tot))) )
+                    worst_neg = max(worst_neg, -float(np.real(tot)) - 1e-9 * float(np.sum(np.abs(t1))))
+                    ref = max(ref, float(np.sum(np.abs(t1))))
+            if worst_im > 1e-8 * max(1.0, ref):
+                ctx.fail("bosonic:not-hermitian", f"the Wigner function / a quadrature density of mode {m} of the bosonic state has "
+                         f"imaginary part {worst_im:.3g}: the represented operator is not Hermitian", rp)
+                break
+            if worst_neg > 1e-8 * max(1.0, ref):
+                ctx.fail("bosonic:negative-density", f"a quadrature probability density of mode {m} of the bosonic state is "
+                         f"negative ({-worst_neg:.3g})", rp)
+                break
     if len(w) == 1:
         n = covs.shape[1] // 2
         perm = list(range(0, 2 * n, 2)) + list(range(1, 2 * n, 2))
@@ -169,6 +203,46 @@ def check_conservation(ctx, sf, prefix, op, n, backend, kind):
                  f"{op['cls']}{'.H' if op.get('dagger') else ''} on {op['regs']} breaks the {kind} law on {backend} by {d:.3g}", rp)
 
 
+def check_top_level(ctx, sf, rng):
+    """operations that cannot raise the photon number of a mode (loss, rotation, Kerr) have nothing to truncate: on the Fock
+    back end they preserve the trace exactly and the loss channel scales the photon number by T exactly, also for states that
+    populate the highest retained level"""
+    for it in range(ctx.n(12, 120)):
+        D = rng.choice([3, 4, 5])
+        n = rng.choice([1, 2, 2])
+        m = rng.randrange(n)
+        nprng = np.random.default_rng(rng.getrandbits(32))
+        amp = nprng.normal(size=(D,) * n) + 1j * nprng.normal(size=(D,) * n)
+        if it % 3 == 0:          # a number state at the top level of the measured mode
+            amp = np.zeros((D,) * n, dtype=complex)
+            idx = [rng.randrange(D) for _ in range(n)]
+            idx[m] = D - 1
+            amp[tuple(idx)] = 1
+        amp /= np.linalg.norm(amp)
+        prep = dict(cls="Ket", regs=list(range(n)), pars=[], apars=[dict(re=amp.real.tolist(), im=amp.imag.tolist())])
+        T = rng.choice([0.1, 0.5, 0.9, 0.25])
+        op = rng.choice([dict(cls="LossChannel", regs=[m], pars=[T]), dict(cls="LossChannel", regs=[m], pars=[T]),
+                         dict(cls="Rgate", regs=[m], pars=[sim.angle(rng)]), dict(cls="Kgate", regs=[m], pars=[0.3])])
+        for backend in ("fock-pure", "fock-mixed"):
+            rp = dict(kind="top", prep=prep, op=op, n=n, D=D, backend=backend)
+            ctx.oracle_cases += 1
+            ctx.count(f"top-level:{backend}:{op['cls']}", dict(p=prep, o=op, b=backend), True)
+            try:
+                s0 = run_backend(sf, dict(n=n, ops=[prep]), backend, D)
+                s1 = run_backend(sf, dict(n=n, ops=[prep, op]), backend, D)
+                (n0, t0), (n1, t1) = photon_total(sf, s0, backend), photon_total(sf, s1, backend)
+            except Exception as e:  # noqa: BLE001
+                ctx.fail(f"evaluation-raises:{backend}:{op['cls']}:{type(e).__name__}", f"{backend} raised {type(e).__name__}: {e}", rp)
+                continue
+            if abs(t1 - t0) > 1e-9:
+                ctx.fail(f"trace-law:{backend}:{op['cls']}", f"{op['cls']} on a {n}-mode state at cutoff {D} changed the trace from "
+                         f"{t0:.10f} to {t1:.10f} on {backend}, although it cannot raise any photon number", rp)
+            elif op["cls"] == "LossChannel" and n == 1 and abs(n1 - T * n0) > 1e-9:
+                ctx.fail(f"loss-law:{backend}", f"LossChannel({T}) took the mean photon number from {n0:.10f} to {n1:.10f} "
+                         f"(expected {T * n0:.10f}) on {backend} at cutoff {D}", rp)
+            check_fock_state(ctx, sf, s1, rp, backend)
+
+
 PASSIVE = ["Rgate", "BSgate", "MZgate", "Fouriergate"]
 UNITARY = ["Rgate", "Sgate", "Dgate", "Xgate", "Zgate", "Pgate", "Fouriergate", "BSgate", "S2gate", "CXgate", "CZgate", "MZgate"]
 
@@ -178,9 +252,9 @@ def bosonic_nongauss_spec(rng, n):
     ops = []
     for m in range(n):
         c = rng.choice(["Catstate", "Fock", "none", "none"])
-        if c == "Catstate":
-            ops.append(dict(cls="Catstate", regs=[m], pars=[round(rng.uniform(0.5, 1.5), 2), 0.0, rng.choice([0, 1])],
-                            kw=dict()))
+        if c == "Catstate":     # any parity phase (p = 0.5: Yurke-Stoler), any phase of alpha
+            ops.append(dict(cls="Catstate", regs=[m], pars=[round(rng.uniform(0.5, 1.5), 2), rng.choice([0.0, 0.0, sim.angle(rng)]),
+                                                            rng.choice([0, 1, 0.5, 0.25, 1.5])], kw=dict()))
         elif c == "Fock":
             ops.append(dict(cls="Fock", regs=[m], pars=[rng.choice([1, 2])]))
     for _ in range(rng.randint(1, 5)):
@@ -190,6 +264,7 @@ def bosonic_nongauss_spec(rng, n):
 
 def run(ctx, sf):
     sf.hbar = 2
+    check_top_level(ctx, sf, ctx.rng)
     simcorr.run_fock_corr(ctx, ctx.n(110, 1100))
     simcorr.run_gauss_corr(ctx, ctx.n(120, 1200))
     rng = ctx.rng
@@ -281,7 +356,13 @@ def replay(ctx, rp):
     import strawberryfields as sf
     n0 = len(ctx.failures)
     sf.hbar = 2
-    if rp["kind"] == "physical":
+    if rp["kind"] == "top":
+        s0 = run_backend(sf, dict(n=rp["n"], ops=[rp["prep"]]), rp["backend"], rp["D"])
+        s1 = run_backend(sf, dict(n=rp["n"], ops=[rp["prep"], rp["op"]]), rp["backend"], rp["D"])
+        t0, t1 = photon_total(sf, s0, rp["backend"])[1], photon_total(sf, s1, rp["backend"])[1]
+        if abs(t0 - t1) > 1e-9:
+            ctx.fail(f"trace-law:{rp['backend']}:{rp['op']['cls']}", f"trace {t0} -> {t1}", rp)
+    elif rp["kind"] == "physical":
         check_physical(ctx, sf, rp["spec"], rp["backend"], rp, rp.get("cutoff", 8))
     else:
         check_conservation(ctx, sf, rp["prefix"], rp["op"], rp["n"], rp["backend"], rp["law"])
